@@ -24,6 +24,7 @@ type Op struct {
 // With seq > 0 each thread runs its op seq+1 times (reuse of pooled or
 // cached state within a thread).
 func PairPrograms(sigPrefix string, reset func(), ops []Op, seq int) []Program {
+	PostReleasePoints = true
 	var ps []Program
 	// self-check: alone, on the instrumented source and from the reset state,
 	// every op must return what the uninstrumented package returns; anything
@@ -85,7 +86,7 @@ func PairPrograms(sigPrefix string, reset func(), ops []Op, seq int) []Program {
 							for n, g := range got[k] {
 								if g != pair[k].Want {
 									return Verdict{Sig: sigPrefix + "/concurrent-calls/result-differs-from-sequential/" + pair[k].Kind,
-										What: fmt.Sprintf("thread %d, call %d of %s returned %s while %s ran concurrently; alone it returns %s", k+1, n+1, pair[k].Name, clip(g), pair[1-k].Name, clip(pair[k].Want)), Obs: "differs"}
+										What: fmt.Sprintf("thread %d, call %d of %s returned %s while %s ran concurrently; alone it returns %s (%s)", k+1, n+1, pair[k].Name, clip(g), pair[1-k].Name, clip(pair[k].Want), diffAt(g, pair[k].Want)), Obs: "differs"}
 								}
 							}
 						}
@@ -104,4 +105,27 @@ func clip(s string) string {
 		return s[:160] + "…"
 	}
 	return s
+}
+
+// diffAt renders got and want around their first difference.
+func diffAt(got, want string) string {
+	i := 0
+	for i < len(got) && i < len(want) && got[i] == want[i] {
+		i++
+	}
+	lo := i - 40
+	if lo < 0 {
+		lo = 0
+	}
+	cut := func(s string) string {
+		hi := i + 80
+		if hi > len(s) {
+			hi = len(s)
+		}
+		if lo > len(s) {
+			return ""
+		}
+		return strings.ToValidUTF8(s[lo:hi], "?")
+	}
+	return fmt.Sprintf("first difference at byte %d: got …%s… want …%s…", i, cut(got), cut(want))
 }
